@@ -204,6 +204,19 @@ def nat_conformance(h):
         elif tail == 'join_self':
             steps.append(join_with_self('res_1', ['k'], {'k': None, 'agg': {'name': 'i', 'aggregate': agg}}))
         elif tail == 'concat':
+            # "well-typed": the columns merged into one target field have ONE type.  (duplicate + a swap rename can leave `s` an integer
+            # column in one resource and a text column in its copy; merging those is the caller's type error, not concatenate's --
+            # a false alarm of this oracle under VERIF_SEED=3.)
+            pre = h.run(lambda: Flow([dict(r) for r in src], [dict(r) for r in tgt], *[steps_pool[x]() for x in names]).datastream().dp.descriptor)
+            if pre[0] != 'ok':
+                continue
+            kinds = {}
+            for rd in pre[1]['resources']:
+                for f in rd['schema']['fields']:
+                    if f['name'] in ('k', 'name', 's'):
+                        kinds.setdefault(f['name'], set()).add(f['type'])
+            if any(len(v) > 1 for v in kinds.values()):
+                continue
             steps.append(concatenate({'k': [], 'name': [], 's': []}, dict(name='both')))
         cfg = (names, tail, agg, n)
         got = h.run(lambda: Flow([dict(r) for r in src], [dict(r) for r in tgt], *steps).results())
